@@ -119,16 +119,19 @@ PLANS = {
     },
     "C15": {
         "level": "proof",
-        "sidecars": ["quatfit"],
+        "sidecars": ["quatfit", "debump"],
         "extras": [{"name": "c15_numeric", "module": "bounded.c15_numeric", "func": "run", "python": "venv"}],
         "explanation": "algebraic kernel of quatfit proved (unit quaternion -> proper rotation, Rodrigues rotation keeps "
-                       "distances to the axis, placement is a rigid motion); A-JACOBI and float tolerances bounded",
+                       "distances to the axis, placement is a rigid motion); set_dihedral_angle stores the torsion measured on "
+                       "the coordinates after the move; A-JACOBI and float tolerances bounded",
     },
     "C16": {
         "level": "proof",
-        "sidecars": ["ligand"],
+        "sidecars": ["ligand", "driver"],
         "extras": [{"name": "c16_complex", "module": "bounded.c16_complex", "func": "run", "python": "venv"}],
-        "explanation": "equilibrate: per-cycle conservation invariant on symmetric multigraph shapes, name-independence",
+        "explanation": "equilibrate: per-cycle conservation invariant on symmetric multigraph shapes, name-independence; "
+                       "the --ligand block of non_trivial puts ligand parameters only on the hetero group's atoms the "
+                       "ligand names, and writes or reports every atom exactly once (contract with mocked callees)",
     },
     "C17": {
         "level": "proof",
@@ -144,9 +147,12 @@ PLANS = {
     },
     "C14": {
         "level": "proof",
-        "sidecars": ["cells"],
-        "extras": [],
-        "explanation": "contracts on Cells.add_cell/remove_cell/get_near_cells and the tiling lemma",
+        "sidecars": ["cells", "cellproto", "debump"],
+        "extras": [{"name": "c14_protocol", "module": "bounded.c14_protocol", "func": "run", "python": "venv"}],
+        "explanation": "contracts on Cells.add_cell/remove_cell/get_near_cells and the tiling lemma (also for re-added atoms "
+                       "and a second cell list); caller protocol: every method of the hydrogen optimisation that creates, "
+                       "deletes or moves atoms re-establishes 'every atom of the residue is registered where it is, every "
+                       "deleted atom is out of the cells' (ghost registration field, loop invariants on the rotation scans)",
     },
 }
 
